@@ -1864,3 +1864,343 @@ func TestVerifC12Export(t *testing.T) {
 		})
 	}
 }
+
+// ---------------------------------------------------------------------------------------------
+// TestVerifC12Deferral: the restarting speaker (GracefulRestart.State.LocalRestarting) withholds its
+// advertisements until every GR peer has sent End-of-RIB or the deferral timer fires — whatever would
+// hand routes to the peer: a route change learned from another neighbour, an RT-membership change of
+// the peer (RT constraint, VPN routes in the table), a ROUTE-REFRESH from the peer, a soft reset out,
+// a locally injected / deleted path, a VRF with a path.  Oracle (event log only): no path carrying
+// NLRI — announcement or withdrawal — is queued toward the deferred peer before the deferral ends,
+// and the table does arrive once it has ended.  Correspondence: `trigger k est lr` ↔ GR.sendsOn.
+
+const (
+	c12TrRouteChange = iota
+	c12TrRTCMembership
+	c12TrRouteRefresh
+	c12TrSoftResetOut
+	c12TrLocalAdd
+	c12TrLocalDelete
+	c12TrVrfPath
+	c12TrRTCWithdraw
+	c12NTrigger
+)
+
+var c12TriggerName = []string{"routeChange", "rtcMembership", "routeRefresh", "softResetOut", "localAddPath", "localDeletePath", "vrfPath", "rtcMembershipWithdrawn"}
+
+type c12dEnv struct {
+	t       *testing.T
+	s       *BgpServer
+	p, src  *peer
+	sent    []string // NLRI-carrying paths queued toward p since the last look
+	nextPfx int
+	nextRT  int
+	locals  []*apiutil.Path
+}
+
+func c12dAddPeer(t *testing.T, s *BgpServer, addr string, as uint32, fams []bgp.Family, gr, lr bool, deferral int) *peer {
+	ap := &api.Peer{
+		Conf:            &api.PeerConf{NeighborAddress: addr, PeerAsn: as},
+		GracefulRestart: &api.GracefulRestart{Enabled: gr, RestartTime: 90, LocalRestarting: lr, DeferralTime: uint32(deferral)},
+	}
+	for _, rf := range fams {
+		ap.AfiSafis = append(ap.AfiSafis, &api.AfiSafi{
+			Config:            &api.AfiSafiConfig{Family: apiutil.ToApiFamily(rf.Afi(), rf.Safi()), Enabled: true},
+			MpGracefulRestart: &api.MpGracefulRestart{Config: &api.MpGracefulRestartConfig{Enabled: gr}},
+		})
+	}
+	var p *peer
+	err := s.mgmtOperation(func() error {
+		c, err := newNeighborFromAPIStruct(ap)
+		if err != nil {
+			return err
+		}
+		if err := oc.SetDefaultNeighborConfigValues(c, nil, &s.bgpConfig.Global); err != nil {
+			return err
+		}
+		p = newPeer(&s.bgpConfig.Global, c, bgp.BGP_FSM_IDLE, s.globalRib, s.policy, s.logger)
+		if err := s.policy.SetPeerPolicy(p.ID(), c.ApplyPolicy); err != nil {
+			return err
+		}
+		s.neighborMap[netip.MustParseAddr(addr)] = p
+		return nil
+	}, true)
+	if err != nil {
+		t.Fatal(err)
+	}
+	return p
+}
+
+func c12dEstablish(s *BgpServer, p *peer, addr string, as uint32, fams []bgp.Family, gr bool) {
+	caps := []bgp.ParameterCapabilityInterface{bgp.NewCapFourOctetASNumber(as), bgp.NewCapRouteRefresh()}
+	tuples := []*bgp.CapGracefulRestartTuple{}
+	for _, rf := range fams {
+		caps = append(caps, bgp.NewCapMultiProtocol(rf))
+		tuples = append(tuples, bgp.NewCapGracefulRestartTuple(rf, true))
+	}
+	if gr {
+		caps = append(caps, bgp.NewCapGracefulRestart(false, false, 90, tuples)) // R bit clear: its End-of-RIB is awaited
+	}
+	open, _ := bgp.NewBGPOpenMessage(bgp.AS_TRANS, 90, netip.MustParseAddr(addr), []bgp.OptionParameterInterface{bgp.NewOptionParameterCapability(caps)})
+	p.fsm.lock.Lock()
+	p.fsm.recvOpen = open
+	p.fsm.conn = c12AddrConn{ip: net.ParseIP(addr).To4()}
+	p.fsm.lock.Unlock()
+	p.fsm.stateChange(bgp.BGP_FSM_ESTABLISHED, newfsmStateReason(fsmOpenMsgNegotiated, nil, nil))
+	s.handleFSMMessage(p, &fsmMsg{MsgType: fsmMsgStateChange, MsgData: bgp.BGP_FSM_ESTABLISHED, StateReason: newfsmStateReason(fsmOpenMsgNegotiated, nil, nil), timestamp: time.Now()})
+	p.fsm.state.Store(bgp.BGP_FSM_ESTABLISHED)
+	synctest.Wait()
+}
+
+// look drains what has been queued toward the deferred peer and returns the NLRI-carrying part.
+func (e *c12dEnv) look() []string {
+	out := []string{}
+	for {
+		synctest.Wait()
+		select {
+		case m, ok := <-e.p.fsm.outgoingCh.Out():
+			if !ok {
+				return out
+			}
+			for _, path := range m.(*fsmOutgoingMsg).Paths {
+				if path == nil || path.IsEOR() {
+					continue
+				}
+				w := ""
+				if path.IsWithdraw {
+					w = "withdraw "
+				}
+				out = append(out, w+path.GetFamily().String()+" "+path.GetNlri().String())
+			}
+		default:
+			return out
+		}
+	}
+}
+
+func (e *c12dEnv) recv(p *peer, m *bgp.BGPMessage) {
+	e.s.handleFSMMessage(p, &fsmMsg{MsgType: fsmMsgBGPMessage, MsgData: m, timestamp: time.Now()})
+	synctest.Wait()
+}
+
+func c12dRT(n int) bgp.ExtendedCommunityInterface {
+	return bgp.NewTwoOctetAsSpecificExtended(bgp.EC_SUBTYPE_ROUTE_TARGET, 100, uint32(100+n), true)
+}
+
+func (e *c12dEnv) localPath(rf bgp.Family, n int, rt int) *apiutil.Path {
+	nh, _ := bgp.NewPathAttributeNextHop(netip.MustParseAddr("3.3.3.3"))
+	attrs := []bgp.PathAttributeInterface{bgp.NewPathAttributeOrigin(0), nh}
+	var nlri bgp.NLRI
+	if rt == 0 {
+		rt = 1 // with RT constraint negotiated gobgp filters EVERY family by RT interest: all routes carry 100:101
+	}
+	attrs = append(attrs, bgp.NewPathAttributeExtendedCommunities([]bgp.ExtendedCommunityInterface{c12dRT(rt)}))
+	if rf == bgp.RF_IPv4_VPN {
+		rd, _ := bgp.ParseRouteDistinguisher("100:100")
+		nlri, _ = bgp.NewLabeledVPNIPAddrPrefix(netip.PrefixFrom(netip.AddrFrom4([4]byte{10, 30, byte(n), 0}), 24), *bgp.NewMPLSLabelStack(100), rd)
+	} else {
+		nlri, _ = bgp.NewIPAddrPrefix(netip.PrefixFrom(netip.AddrFrom4([4]byte{10, 40, byte(n), 0}), 24))
+	}
+	path, err := apiutil.NewPath(rf, nlri, false, attrs, time.Now())
+	if err != nil {
+		e.t.Fatal(err)
+	}
+	return mustApi2apiutilPath(path)
+}
+
+// trigger performs one thing that hands routes to the peer when nothing holds them back; every trigger
+// has something new to send (a fresh prefix / a fresh RT with a matching VPN route already in the table).
+func (e *c12dEnv) trigger(k int) {
+	switch k {
+	case c12TrRouteChange:
+		e.nextPfx++
+		n, _ := bgp.NewIPAddrPrefix(netip.PrefixFrom(netip.AddrFrom4([4]byte{20, byte(e.nextPfx), 0, 0}), 16))
+		nh, _ := bgp.NewPathAttributeNextHop(netip.MustParseAddr("10.9.0.5"))
+		e.recv(e.src, bgp.NewBGPUpdateMessage(nil, []bgp.PathAttributeInterface{bgp.NewPathAttributeOrigin(0),
+			bgp.NewPathAttributeAsPath([]bgp.AsPathParamInterface{bgp.NewAs4PathParam(bgp.BGP_ASPATH_ATTR_TYPE_SEQ, []uint32{65005})}), nh,
+			bgp.NewPathAttributeExtendedCommunities([]bgp.ExtendedCommunityInterface{c12dRT(1)})},
+			[]bgp.PathNLRI{{NLRI: n}}))
+	case c12TrRTCMembership:
+		e.nextRT++
+		mp, _ := bgp.NewPathAttributeMpReachNLRI(bgp.RF_RTC_UC, []bgp.PathNLRI{{NLRI: bgp.NewRouteTargetMembershipNLRI(65001, c12dRT(e.nextRT))}}, netip.MustParseAddr("10.9.0.2"))
+		e.recv(e.p, bgp.NewBGPUpdateMessage(nil, []bgp.PathAttributeInterface{bgp.NewPathAttributeOrigin(0), bgp.NewPathAttributeAsPath(nil), bgp.NewPathAttributeLocalPref(100), mp}, nil))
+	case c12TrRTCWithdraw:
+		// the peer withdraws its latest RT membership
+		mp, _ := bgp.NewPathAttributeMpUnreachNLRI(bgp.RF_RTC_UC, []bgp.PathNLRI{{NLRI: bgp.NewRouteTargetMembershipNLRI(65001, c12dRT(e.nextRT))}})
+		e.recv(e.p, bgp.NewBGPUpdateMessage(nil, []bgp.PathAttributeInterface{mp}, nil))
+	case c12TrRouteRefresh:
+		e.recv(e.p, bgp.NewBGPRouteRefreshMessage(bgp.AFI_IP, 0, bgp.SAFI_UNICAST))
+	case c12TrSoftResetOut:
+		if err := e.s.mgmtOperation(func() error { return e.s.softResetOut("10.9.0.2", bgp.RF_IPv4_UC, false) }, false); err != nil {
+			e.t.Fatal(err)
+		}
+	case c12TrLocalAdd:
+		e.nextPfx++
+		lp := e.localPath(bgp.RF_IPv4_UC, e.nextPfx, 0)
+		if _, err := e.s.AddPath(apiutil.AddPathRequest{Paths: []*apiutil.Path{lp}}); err != nil {
+			e.t.Fatal(err)
+		}
+		e.locals = append(e.locals, lp)
+	case c12TrLocalDelete:
+		// delete the first local path (a route the peer has, or would have, been told about)
+		lp := e.locals[0]
+		e.locals = e.locals[1:]
+		if err := e.s.DeletePath(apiutil.DeletePathRequest{Paths: []*apiutil.Path{lp}}); err != nil {
+			e.t.Fatal(err)
+		}
+	case c12TrVrfPath:
+		e.nextPfx++
+		name := fmt.Sprintf("v%d", e.nextPfx)
+		rd, _ := bgp.ParseRouteDistinguisher(fmt.Sprintf("200:%d", e.nextPfx))
+		rdApi, _ := apiutil.MarshalRD(rd)
+		rtApi, _ := apiutil.MarshalRTs([]bgp.ExtendedCommunityInterface{c12dRT(1)})
+		if err := e.s.AddVrf(context.Background(), &api.AddVrfRequest{Vrf: &api.Vrf{Name: name, Rd: rdApi, ImportRt: rtApi, ExportRt: rtApi, Id: uint32(e.nextPfx)}}); err != nil {
+			e.t.Fatal(err)
+		}
+		lp := e.localPath(bgp.RF_IPv4_UC, e.nextPfx, 0)
+		if _, err := e.s.AddPath(apiutil.AddPathRequest{VRFID: name, Paths: []*apiutil.Path{lp}}); err != nil {
+			e.t.Fatal(err)
+		}
+	}
+	synctest.Wait()
+}
+
+func c12DeferralScenario(t *testing.T, o *vOut, r *vRand, endByTimer bool, withRTC bool) {
+	synctest.Test(t, func(t *testing.T) {
+		s := NewBgpServer()
+		go s.Serve()
+		if err := s.StartBgp(context.Background(), &api.StartBgpRequest{Global: &api.Global{Asn: 65001, RouterId: "1.1.1.1", ListenPort: -1}}); err != nil {
+			t.Fatal(err)
+		}
+		e := &c12dEnv{t: t, s: s}
+		fams := []bgp.Family{bgp.RF_IPv4_UC, bgp.RF_IPv4_VPN}
+		if withRTC {
+			fams = append(fams, bgp.RF_RTC_UC)
+		}
+		deferral := 60
+		e.p = c12dAddPeer(t, s, "10.9.0.2", 65001, fams, true, true, deferral)
+		e.src = c12dAddPeer(t, s, "10.9.0.5", 65005, []bgp.Family{bgp.RF_IPv4_UC}, false, false, 0)
+		defer func() {
+			_ = s.mgmtOperation(func() error {
+				for k, p := range s.neighborMap {
+					p.stopPeerRestarting()
+					p.fsm.gracefulRestartTimer.Stop()
+					p.fsm.outgoingCh.Close()
+					for range p.fsm.outgoingCh.Out() {
+					}
+					delete(s.neighborMap, k)
+				}
+				return nil
+			}, false)
+			synctest.Wait()
+			s.Stop()
+			synctest.Wait()
+		}()
+		// the table before the peer comes up: one unicast route and VPN routes with RT 100:101 … 100:106
+		first := e.localPath(bgp.RF_IPv4_UC, 200, 0)
+		e.locals = append(e.locals, first)
+		paths := []*apiutil.Path{first}
+		for i := 1; i <= 6; i++ {
+			paths = append(paths, e.localPath(bgp.RF_IPv4_VPN, i, i))
+		}
+		if _, err := s.AddPath(apiutil.AddPathRequest{Paths: paths}); err != nil {
+			t.Fatal(err)
+		}
+		c12dEstablish(s, e.src, "10.9.0.5", 65005, []bgp.Family{bgp.RF_IPv4_UC}, false)
+		c12dEstablish(s, e.p, "10.9.0.2", 65001, fams, true)
+		log := []string{fmt.Sprintf("restarting speaker, peer families %v, deferral %d s", fams, deferral)}
+		deferred := true
+		judge := func(what string, k int) {
+			sent := e.look()
+			lr := e.p.fsm.pConf.ReadOnly().GracefulRestart.State.LocalRestarting
+			log = append(log, fmt.Sprintf("%s -> %d NLRI paths queued", what, len(sent)))
+			if k >= 0 {
+				// correspondence: does this trigger hand routes to the peer in this state?  (the answer is
+				// taken BEFORE looking at LocalRestarting: what was queued)
+				askable := k != c12TrRTCWithdraw // (after the deferral it withdraws what the membership had brought: not a fixed answer)
+				if askable {
+					o.ask(fmt.Sprint(c12b(len(sent) > 0)), "trigger %d 1 %d", k, c12b(deferred))
+				}
+				o.stat(fmt.Sprintf("trigger_%s_deferred%d", c12TriggerName[k], c12b(deferred)), 1)
+			}
+			if deferred && len(sent) > 0 {
+				cls := "advertised-before-deferral-ends"
+				if k >= 0 {
+					cls += ":" + c12TriggerName[k]
+				}
+				o.fail(cls, map[string]any{"history": append([]string{}, log...), "queued": sent, "localRestarting": lr, "rtc": withRTC, "endByTimer": endByTimer})
+			}
+		}
+		judge("established", -1)
+		kinds := []int{c12TrRouteChange, c12TrRouteRefresh, c12TrSoftResetOut, c12TrLocalAdd, c12TrLocalDelete, c12TrVrfPath}
+		if withRTC {
+			// the peer's membership of RT 100:101 (which every route here carries) comes first
+			e.trigger(c12TrRTCMembership)
+			judge(c12TriggerName[c12TrRTCMembership], c12TrRTCMembership)
+			kinds = append(kinds, c12TrRTCMembership, c12TrRTCMembership)
+		}
+		// while deferred: every trigger, in a random order
+		order := r.perm(len(kinds))
+		for _, i := range order {
+			e.trigger(kinds[i])
+			judge(c12TriggerName[kinds[i]], kinds[i])
+			if r.chance(25) {
+				time.Sleep(time.Duration(1+r.intn(5)) * time.Second)
+				judge("tick", -1)
+			}
+		}
+		if withRTC && r.chance(60) {
+			e.trigger(c12TrRTCWithdraw) // the latest membership goes again: nothing was advertised for it, nothing to withdraw
+			judge(c12TriggerName[c12TrRTCWithdraw], c12TrRTCWithdraw)
+		}
+		// the deferral ends
+		if endByTimer {
+			time.Sleep(time.Duration(deferral) * time.Second)
+			synctest.Wait()
+			log = append(log, "deferral timer fired")
+		} else {
+			for _, rf := range fams {
+				if rf != fams[len(fams)-1] {
+					e.recv(e.p, bgp.NewEndOfRib(rf))
+					judge("End-of-RIB "+rf.String()+" (not the last)", -1)
+				}
+			}
+			e.recv(e.p, bgp.NewEndOfRib(fams[len(fams)-1]))
+			log = append(log, "last End-of-RIB")
+		}
+		deferred = false
+		sent := e.look()
+		log = append(log, fmt.Sprintf("after the deferral -> %d NLRI paths queued", len(sent)))
+		if len(sent) == 0 || e.p.fsm.pConf.ReadOnly().GracefulRestart.State.LocalRestarting {
+			o.fail("nothing-advertised-after-deferral", map[string]any{"history": append([]string{}, log...), "rtc": withRTC, "endByTimer": endByTimer})
+		}
+		o.stat("deferral_scenarios", 1)
+		// afterwards the same triggers do hand routes over
+		e.locals = append(e.locals, e.localPath(bgp.RF_IPv4_UC, 250, 0))
+		if _, err := s.AddPath(apiutil.AddPathRequest{Paths: e.locals[len(e.locals)-1:]}); err != nil {
+			t.Fatal(err)
+		}
+		e.look()
+		for _, i := range r.perm(len(kinds)) {
+			if kinds[i] == c12TrLocalDelete && len(e.locals) == 0 {
+				continue
+			}
+			e.trigger(kinds[i])
+			judge(c12TriggerName[kinds[i]], kinds[i])
+		}
+	})
+}
+
+func TestVerifC12Deferral(t *testing.T) {
+	o := vOpen(t)
+	defer o.close()
+	r := &vRand{s: o.seed*7919 + 121}
+	o.sample("restarting speaker + peer with GR (R bit clear), ipv4-unicast / l3vpn-ipv4 [/ rtc]; triggers in random order while deferred: route change, RT membership, ROUTE-REFRESH, soft reset out, local add/delete, VRF path; then last End-of-RIB or deferral timer; then the triggers again")
+	n := 6
+	if o.thorough {
+		n = 40
+	}
+	for i := 0; i < n; i++ {
+		c12DeferralScenario(t, o, r, i%2 == 1, i%4 < 3)
+	}
+}
